@@ -1767,14 +1767,14 @@ where
             }
         }
 
-        // Count the packet against receive_maximum (checked above)
-        if (packet.qos() == Qos::AtLeastOnce || packet.qos() == Qos::ExactlyOnce)
-            && self.publish_send_max.is_some()
-        {
-            self.publish_send_count = self.publish_send_count.saturating_add(1);
-        }
-
         if self.status == ConnectionStatus::Connected {
+            // Count the packet against receive_maximum (checked above). A packet that is only
+            // stored for now is counted when send_stored() sends it.
+            if (packet.qos() == Qos::AtLeastOnce || packet.qos() == Qos::ExactlyOnce)
+                && self.publish_send_max.is_some()
+            {
+                self.publish_send_count = self.publish_send_count.saturating_add(1);
+            }
             events.push(GenericEvent::RequestSendPacket {
                 packet: packet.into(),
                 release_packet_id_if_send_error,
